@@ -83,6 +83,26 @@ def snapshot(ag):
     return (np.array(ag.command_array, copy=True).tolist(), ag.genetic_age, ag.fitness, ag.fit_set, tuple(ag.constants))
 
 
+PARENT_STATES = ["evaluated", "evaluated, cache valid", "cache valid, flag cleared (reset_fitness)", "printed, never evaluated"]
+
+
+def put_in_state(ind, state, fitness):
+    """the states in which variation meets its parents in a run: evaluated; evaluated and read (cached simplified stack valid);
+    read, evaluated, then `fit_set = False` (Island.reset_fitness after a migration / predictor update, VarOr replication);
+    printed or logged but never evaluated"""
+    if state == "evaluated":
+        ind.fitness = fitness
+    elif state == "evaluated, cache valid":
+        ind.get_complexity()
+        ind.fitness = fitness
+    elif state == "cache valid, flag cleared (reset_fitness)":
+        ind.get_complexity()
+        ind.fitness = fitness
+        ind.fit_set = False
+    else:
+        str(ind)
+
+
 def real_oracle(ctx, rep):
     rng = ctx.rng
     for t in range(ctx.n(400, 6000)):
@@ -116,6 +136,9 @@ def real_oracle(ctx, rep):
                     for probs in kinds:
                         mut = AGraphMutation(cg, *probs)
                         for _ in range(3):
+                            state = rng.choice(PARENT_STATES)
+                            put_in_state(a, state, 1.5)
+                            rep.count("parent_state", state)
                             before = snapshot(a)
                             child = mut(a)
                             rep.case(("mut", str(before[0]), probs, str(child.command_array.tolist())), True)
@@ -126,6 +149,10 @@ def real_oracle(ctx, rep):
                     if size < 3:
                         continue            # AGraphCrossover raises ValueError for sizes <= 2 (finding F7)
                     cx = AGraphCrossover()
+                    for parent, fitv in ((a, 1.5), (b, 2.5)):
+                        state = rng.choice(PARENT_STATES)
+                        put_in_state(parent, state, fitv)
+                        rep.count("parent_state", state)
                     ba, bb = snapshot(a), snapshot(b)
                     c1, c2 = cx(a, b)
                     rep.count("crossover")
